@@ -7,13 +7,34 @@ from linalg import *
 PID = "C01"
 IMPORTS = "From OV Require Import Model.Vector Model.Matrix Model.MatOps Model.Solve."
 MODEL_VO = ["Model/Solve.vo"]
-RULE = ("square systems n=1..8: dense, zero/tiny leading pivots at several steps, permutation-like, triangular, several exchanges; "
+RULE = ("square systems n=1..8: dense, zero/tiny leading pivots at several steps, permutation-like, triangular, several exchanges, badly row-scaled, Wilkinson growth matrices; "
         "Rat (exact, vs Qc model), f64 and Complex<f64> (vs primitive-float model, scaled 1e-6..1e6); both solvers per system; "
         "distinct = distinct executor line; non-trivial = n >= 2 and nonsingular")
 TRUSTED = ["Coq 8.16.1 kernel + vm_compute", "Rust executor /verif/harness (Rat = i128 rationals)", "python driver (generators, Fraction residual oracle, comparators)",
            "hand-written Gallina model coq/Model/Solve.v tied to src/matrix/solve.rs by differential execution"]
 ASSUMPTIONS = ["Rust semantics of Vec/usize as modelled", "float backward stability is searched (1e-11 normwise), not proved"]
-UNPROVED = ["normwise backward error of the f64/Complex instantiation (covered by tie + search)"]
+UNPROVED = ["normwise backward error of the f64/Complex instantiation (covered by tie + search; fails for Complex<f64> at extreme magnitudes: recorded finding cplx-sqmod-range)",
+            "solve_lu_sound / solvers_agree are assembled from package c02's LU theorems (this file's theorems are about solve_basic)"]
+
+MANIFEST = dict(
+    text=("Theorems over an arbitrary field (all sizes n >= 1, all entries) about the Gallina model of src/matrix/solve.rs, which keeps the flat "
+          "row-major buffer, the loop bounds, the pivot rule (initial index 0, strict <) and every panic of the code: "
+          "solve_basic_sound (solve_basic M b = Ok x -> |x| = n and M x = b: row operations preserve the solution set, back substitution solves "
+          "the triangular system, a zero pivot is a DivZero panic -- including the run in which a zero sub-column makes the pivot search fall back "
+          "to row 0), solutions_unique (left inverse => at most one solution), solve_basic_complete (magnitude laws PivLaws + left inverse => Ok), "
+          "solve_basic_panic_kind / _singular (the only possible panic is the zero divisor, and it certifies a singular matrix), corollaries "
+          "'solved, uniquely' at Qc, R and C (the model's own complex operators), and a 3x3 rational example with a zero leading entry and two "
+          "row exchanges evaluated by vm_compute.  The model is run against the implementation on every check (Rat vs Qc exact, f64/Complex<f64> "
+          "vs primitive floats; both solvers; zero/tiny pivots, permutation-like, triangular, singular and mis-shaped systems) and an independent "
+          "Fraction/float residual oracle searches for a failing input; the measured distribution of row exchanges per system is in the evidence."),
+    note=("Float backward stability (1e-11 normwise) is searched, not proved.  The LU half of the property (solve_lu_sound, solvers_agree) "
+          "rests on package c02's theorems (Proofs/Solve.v: solvers_agree_from_lu_sound composes them); here solve_lu is tied and searched. "
+          "Completeness needs PivLaws (abs x = 0 <-> x = 0, x <> 0 -> 0 < |x|, not |x| < 0): MagLaws of DESIGN Appendix E is too weak. "
+          "Recorded finding cplx-sqmod-range (findings/C01-complex-extreme-scale.md): for Complex<f64> entries with |z|^2 outside the normal "
+          "f64 range both solvers return NaN on perfectly conditioned systems (unscaled modulus and division in src/complex/mod.rs); an "
+          "adversarial family and two corpus witnesses exercise it on every run, keyed by the input, so any other failure stays a violation."),
+    technique="Coq proof over an abstract field + model/implementation differential execution (vm_compute vs Rust executor) + exact residual oracle",
+    design="7 (C01)")
 
 def rval(rng):
     k = rng.below(6)
@@ -53,7 +74,118 @@ def gen_matrix(rng, n, fam, elt):
             if rng.chance(1, 2): A[k*n+k] = 1e-20 * (1 if rng.chance(1, 2) else -1)
     elif fam == "neg-dominant":
         for k in range(n): A[k*n+k] = -one * rng.range(5, 9)
+    elif fam == "row-scaled":   # floats only: rows of wildly different magnitude (partial pivoting without row scaling)
+        for i in range(n):
+            s = 10.0 ** rng.range(-6, 6)
+            for j in range(n): A[i*n+j] = A[i*n+j] * s
+    elif fam == "wilkinson":    # worst-case element growth 2^(n-1) of partial pivoting
+        A = [0 * one for _ in range(n * n)]
+        for i in range(n):
+            for j in range(i): A[i*n+j] = -one
+            A[i*n+i] = one
+            A[i*n+n-1] = one
     return A
+
+def pivot_trace(A, n):
+    """independent exact re-enactment of the pivot rule of solve_basic (index starts at 0, strict <):
+    returns (number of steps k with pivot != k, steps with an exchange, fell back to row 0 on a zero sub-column)"""
+    M = [[Fraction(A[i*n+j]) for j in range(n)] for i in range(n)]
+    steps = []; fallback = False
+    for k in range(n - 1):
+        p, mx = 0, Fraction(0)
+        for i in range(k, n):
+            if mx < abs(M[i][k]): mx, p = abs(M[i][k]), i
+        if p != k:
+            steps.append(k)
+            if p < k: fallback = True
+        M[p], M[k] = M[k], M[p]
+        if M[k][k] == 0: return len(steps), steps, fallback
+        for i in range(k + 1, n):
+            e = M[i][k] / M[k][k]
+            for j in range(k, n): M[i][j] -= e * M[k][j]
+    return len(steps), steps, fallback
+
+PIVOT_STATS = {"exchanges_per_system": {}, "exchange_at_step": {}, "systems_with_exchange_after_step0": 0,
+               "zero_subcolumn_row0_fallback": 0, "singular_systems": 0, "systems": 0}
+
+def record_pivots(A, n, elt):
+    try:
+        Af = [Fraction(x.real if isinstance(x, complex) else x) for x in A]
+    except Exception:
+        return
+    if elt == 'cplx': return     # the complex pivot rule compares moduli: not re-enacted here
+    cnt, steps, fb = pivot_trace(Af, n)
+    P = PIVOT_STATS
+    P["systems"] += 1
+    P["exchanges_per_system"][str(cnt)] = P["exchanges_per_system"].get(str(cnt), 0) + 1
+    for k in steps: P["exchange_at_step"][str(k)] = P["exchange_at_step"].get(str(k), 0) + 1
+    if any(k >= 1 for k in steps): P["systems_with_exchange_after_step0"] += 1
+    if fb: P["zero_subcolumn_row0_fallback"] += 1
+    if not nonsingular(Af, n): P["singular_systems"] += 1
+
+def extra_coverage():
+    return {"pivot_distribution": PIVOT_STATS}
+
+# ---- recorded finding `cplx-sqmod-range` (findings/C01-complex-extreme-scale.md): Complex<f64> modulus and division square
+# the components without scaling.  The key is decided from the INPUT (entries and the exact pivots they lead to), never from
+# the fact of failing.
+MIN_NORMAL = Fraction(2) ** -1022
+MAX_F64 = Fraction(2) ** 1024
+
+def sqmod_out_of_range(re, im):
+    s = Fraction(re) ** 2 + Fraction(im) ** 2
+    return s != 0 and (s < MIN_NORMAL or s >= MAX_F64)
+
+def cplx_exact_pivots(A, n):
+    """pivots of exact elimination with partial pivoting by true modulus (what backsolve divides by)"""
+    def mul(a, b): return (a[0]*b[0] - a[1]*b[1], a[0]*b[1] + a[1]*b[0])
+    def sub(a, b): return (a[0]-b[0], a[1]-b[1])
+    def div(a, b):
+        d = b[0]*b[0] + b[1]*b[1]
+        return ((a[0]*b[0] + a[1]*b[1]) / d, (a[1]*b[0] - a[0]*b[1]) / d)
+    M = [[(Fraction(A[i*n+j].real), Fraction(A[i*n+j].imag)) for j in range(n)] for i in range(n)]
+    piv = []
+    for k in range(n):
+        p = max(range(k, n), key=lambda i: M[i][k][0]**2 + M[i][k][1]**2)
+        if M[p][k] == (0, 0): continue
+        M[p], M[k] = M[k], M[p]
+        piv.append(M[k][k])
+        for i in range(k + 1, n):
+            f = div(M[i][k], M[k][k])
+            if f != (0, 0):
+                for j in range(k, n): M[i][j] = sub(M[i][j], mul(f, M[k][j]))
+    return piv
+
+def finding_key(case, desc, items):
+    """`cplx-sqmod-range` iff the element type is Complex<f64> and some entry of A or b, or some exact pivot, has re^2 + im^2
+    outside the normal f64 range (underflows to 0/subnormal, or overflows)."""
+    m = case.meta
+    if case.elt != 'cplx' or m.get("bad") or "A" not in m: return None
+    A, b, n = m["A"], m["b"], m["n"]
+    try:
+        if any(sqmod_out_of_range(complex(z).real, complex(z).imag) for z in list(A) + list(b)): return "cplx-sqmod-range"
+        if any(sqmod_out_of_range(p[0], p[1]) for p in cplx_exact_pivots([complex(z) for z in A], n)): return "cplx-sqmod-range"
+    except (OverflowError, ValueError):      # non-finite input entries: not this class
+        return None
+    return None
+
+def gen_extreme_cplx(rng, n):
+    """well-conditioned Complex<f64> systems whose entries have |z| in 1e-200..1e-155 or 1e155..1e200:
+    scaled diagonal / strictly diagonally dominant / row-permuted dominant; b = A * x0 for a small x0"""
+    e = rng.range(155, 200)
+    s = 10.0 ** (-e if rng.chance(1, 2) else e)
+    pat = rng.below(3)
+    A = [0j] * (n * n)
+    perm = list(range(n)) if pat < 2 else rng.shuffle(range(n))
+    for i in range(n):
+        for j in range(n):
+            if j == perm[i]:
+                A[i*n+j] = complex(rng.range(4 * n, 6 * n) * (1 if rng.chance(1, 2) else -1), rng.range(-3, 3)) * s
+            elif pat >= 1 and rng.chance(1, 2):
+                A[i*n+j] = complex(rng.range(-2, 2), rng.range(-2, 2)) * s
+    x0 = [complex(rng.range(-3, 3), rng.range(-3, 3)) for _ in range(n)]
+    b = [sum((A[i*n+j] * x0[j] for j in range(n)), 0j) for i in range(n)]
+    return A, b
 
 def nonsingular(A, n):
     try:
@@ -68,6 +200,7 @@ def to_elt(rng, A, elt, scale_rows=True):
 
 def mk(elt, n, A, b, family, nontrivial):
     M = (n, n, A)
+    record_pivots(A, n, elt)
     line = "mat.solve_both %s %s" % (tok_mat(elt, M), tok_vec(elt, b))
     term = ("fl_res (fun p : list _ * list _ => fl_list %s (fst p) ++ fl_list %s (snd p)) "
             "(let* x := @solve_basic %s %s %s in let* y := @solve_lu %s %s %s in Ok (x, y))") % (
@@ -76,10 +209,10 @@ def mk(elt, n, A, b, family, nontrivial):
 
 def generate(rng, tier):
     cases = []
-    N = 40 if tier == "quick" else 400
+    N = 80 if tier == "quick" else 600
     fams_r = ["dense", "zero-lead", "perm", "upper", "lower", "neg-dominant"]
     g = rng.fork("rat")
-    for fam in fams_r:
+    for fam in fams_r + ["wilkinson"]:
         for t in range(N):
             n = 1 + (t % 8)
             for _ in range(20):
@@ -89,12 +222,13 @@ def generate(rng, tier):
             cases.append(mk('rat', n, A, b, "rat-" + fam, n >= 2 and nonsingular(A, n)))
     g = rng.fork("flt")
     for elt in ('f64', 'cplx'):
-        for fam in fams_r + ["tiny-pivot"]:
+        for fam in fams_r + ["tiny-pivot", "row-scaled", "wilkinson"]:
             for t in range(max(4, N // 3)):
                 n = 1 + (t % 8)
                 for _ in range(20):
                     A = gen_matrix(g, n, fam, 'f64')
                     if nonsingular(A, n): break
+                if not nonsingular(A, n): continue   # exactly singular float systems are outside the quantifier: inf/nan patterns are not compared
                 sc = 10.0 ** g.range(-6, 6) if g.chance(1, 2) else 1.0
                 A = [x * sc for x in A]
                 b = [fval(g, sc) for _ in range(n)]
@@ -102,6 +236,12 @@ def generate(rng, tier):
                     A = [complex(x, fval(g, sc) if g.chance(1, 2) else 0.0) for x in A]
                     b = [complex(x, fval(g, sc)) for x in b]
                 cases.append(mk(elt, n, A, b, elt + "-" + fam, n >= 2))
+    # adversarial: Complex<f64> at magnitudes where re^2+im^2 leaves the normal range (recorded finding cplx-sqmod-range)
+    g = rng.fork("cplx-extreme")
+    for t in range(8 if tier == "quick" else 60):
+        n = 1 + (t % 4)
+        A, b = gen_extreme_cplx(g, n)
+        cases.append(mk('cplx', n, A, b, "cplx-extreme-scale", True))
     # mismatched / non-square / empty systems: must be rejected (panic), never answered
     g = rng.fork("bad")
     for r in range(0, 4):
